@@ -99,6 +99,7 @@ def plan(seed, subbatch):
                        # hour or half an hour (the size of the panel zones' offset changes)
                        # timestamps as instances of a datetime subclass (data frames hand such objects over)
                        "stamp_subclass": sub_rng(seed, "stamp-class").random() < 0.15,
+                       "fold_one": sub_rng(seed, "fold").random() < 0.12,     # some stamps carry fold=1
                        # timezone-AWARE streams too (as datetimes or, with the ISO encoding, as strings with Z / an
                        # offset): their buckets are on their own wall clock whatever the process zone is
                        "utc_offset_min": sub_rng(seed, "aware").choice((None, None, None, None, 0, 0, 60, -210)),
@@ -197,9 +198,11 @@ def execute(trace, ctx=None):
 
     catalogue.STAMP_SUBCLASS = bool(trace["config"].get("stamp_subclass"))
     catalogue.TZ_OFFSET_MIN = trace["config"].get("utc_offset_min")
+    catalogue.FOLD_ONE = bool(trace["config"].get("fold_one"))
     try:
         return run_property(ID, body, trace)
     finally:
+        catalogue.FOLD_ONE = False
         catalogue.STAMP_SUBCLASS = False
         catalogue.TZ_OFFSET_MIN = None
         _set_tz("UTC")
